@@ -274,6 +274,56 @@ theorem pow_iff_target (limit : Nat) (hash : Bytes) (hh : hash.length = 32) (bit
       · simp [h1, h2]; omega
     · simp [h1]; omega
 
+/-! ### what "truncated" means quantitatively (Spec sanity + consequences for the model) -/
+
+/-- truncation never rounds up … -/
+theorem truncTop3_le (v : Nat) : Spec.truncTop3 v ≤ v := by
+  unfold Spec.truncTop3
+  simp only []
+  split <;> split <;> first | exact Nat.le_refl _ | exact Nat.div_mul_le_self _ _
+
+/-- … and drops less than one unit of the lowest kept byte (256^(nbytes−2) bounds both branches) -/
+theorem truncTop3_close (v : Nat) : v - Spec.truncTop3 v < 256 ^ (nbytes v - 2) := by
+  unfold Spec.truncTop3
+  simp only []
+  have hp2 : 0 < 256 ^ (nbytes v - 2) := Nat.pow_pos (by omega)
+  have hp3 : 0 < 256 ^ (nbytes v - 3) := Nat.pow_pos (by omega)
+  have hmono : 256 ^ (nbytes v - 3) ≤ 256 ^ (nbytes v - 2) := Nat.pow_le_pow_right (by omega) (by omega)
+  split <;> split
+  · omega
+  · have := Nat.mod_lt v hp2
+    have := Nat.div_add_mod v (256 ^ (nbytes v - 2))
+    have := Nat.mul_comm (256 ^ (nbytes v - 2)) (v / 256 ^ (nbytes v - 2))
+    omega
+  · omega
+  · have := Nat.mod_lt v hp3
+    have := Nat.div_add_mod v (256 ^ (nbytes v - 3))
+    have := Nat.mul_comm (256 ^ (nbytes v - 3)) (v / 256 ^ (nbytes v - 3))
+    omega
+
+/-- the decoded encoding of a 256-bit integer never exceeds the integer … -/
+theorem decode_encode_le (v : Nat) (hv : v < 2 ^ 256) : Model.fromCompact (Model.toCompact v) ≤ v := by
+  rw [decode_encode v hv]; exact truncTop3_le v
+
+/-- … so a hash accepted against the encoded target is below the un-truncated integer as well -/
+theorem pow_accept_below_value (limit : Nat) (hash : Bytes) (hh : hash.length = 32) (v : Nat) (hv : v < 2 ^ 256)
+    (hok : Model.checkPoW limit hash (Model.toCompact v) = .ok) : leNat hash ≤ v := by
+  have hle := decode_encode_le v hv
+  unfold Model.checkPoW at hok
+  simp only [Model.uint256FromStr, hh, Nat.lt_irrefl, if_false, List.take_of_length_le (Nat.le_of_eq hh)] at hok
+  split at hok
+  · exact absurd hok (by decide)
+  · split at hok
+    · exact absurd hok (by decide)
+    · split at hok
+      · exact absurd hok (by decide)
+      · omega
+
+/-- encoding is idempotent through decoding: re-encoding the decoded encoding changes nothing -/
+theorem encode_decode_encode (v : Nat) (hv : v < 2 ^ 256) :
+    Model.toCompact (Model.fromCompact (Model.toCompact v)) = Model.toCompact v :=
+  encode_decode _ (toCompact_canonical v hv)
+
 /-! ### non-vacuity: concrete values meeting the hypotheses -/
 
 example : Spec.canonical 0x1d00ffff := by right; decide
